@@ -43,11 +43,11 @@ const eofRune = 0x7fffffff
 
 type lexModel struct {
 	lexer, parser, tokenT, stmtT *types.Named
-	ground, unquoted, qstring  *ssa.Function
-	next, peek, acceptRun      *ssa.Function
-	nextToken                  *ssa.Function
-	pNext, pNextStmt           *ssa.Function
-	states                     []*ssa.Function
+	ground, unquoted, qstring    *ssa.Function
+	next, peek, acceptRun        *ssa.Function
+	nextToken                    *ssa.Function
+	pNext, pNextStmt             *ssa.Function
+	states                       []*ssa.Function
 }
 
 func (c *Ctx) lexModel() (*lexModel, string) {
@@ -452,7 +452,7 @@ func ruleLexProgress(c *Ctx) []Obligation {
 				stack = append(stack, b.Succs...)
 			}
 			if leak {
-				if why, okj := progressJustified[con]; okj {
+				if why, okj := jget("progressJustified", progressJustified, con); okj {
 					obs = append(obs, just(R, con, pos, why))
 				} else {
 					obs = append(obs, bad(R, con, pos, "an iteration can complete without consuming a rune or token and without shrinking a bounded counter: the loop may spin forever"))
@@ -1101,7 +1101,7 @@ func rulePosStmt(c *Ctx) []Obligation {
 	} else {
 		tp := []struct {
 			tf, lf string
-			plus  int64
+			plus   int64
 		}{{"Line", "sline", 0}, {"Col", "scol", 1}, {"File", "file", 0}}
 		for _, p := range tp {
 			con := fmt.Sprintf("token.%s is the start marker lexer.%s%s", p.tf, p.lf, map[bool]string{true: "+1", false: ""}[p.plus == 1])
